@@ -71,6 +71,16 @@ Theorem C03_del_path_exact : forall p doc f pos,
 Proof. exact del_path_exact. Qed.
 Print Assumptions C03_del_path_exact.
 
+(* a multi-match selection through the evaluator: `del(.[])` on a sequence removes every element -- the victims are
+   visited back to front, each located by identity, none skipped or removed twice *)
+Theorem C03_del_splat_empties : forall items f,
+  (2 <= f)%nat ->
+  exists cx' st',
+    eval (S f) (EDel (EIndex ESelf None)) false [] [(O, [])] (init_store (Seq items)) = Ok (cx', st')
+    /\ deref st' (O, []) = Some (Seq []).
+Proof. exact del_splat_empties. Qed.
+Print Assumptions C03_del_splat_empties.
+
 Example C03_del_path_example :
   let doc := Map [([97], Seq [(RIdx 0, Scalar TInt [48]); (RIdx 1, Map [([98], Scalar TInt [49]); ([99], Scalar TInt [50])])])] in
   let p := [EK [97]; EI [49] 1; EK [98]] in
